@@ -3,7 +3,7 @@
    regenerated from /repo on every run (constant + source text of the helpers, tied in
    Proofs_shape.v).  Names are label lists, root first; [canon] folds ASCII case. *)
 From Sdns Require Import Common.Base Gen.C07 C07.Model C07.Proofs_names C07.Proofs_exchange
-  C07.Proofs_glue C07.Proofs_referral C07.Proofs_contain C07.Proofs_chase C07.Proofs_gluehist C07.Proofs_local C07.Proofs_fold C07.Proofs_zone C07.Proofs_sub C07.Proofs_gen C07.Proofs_shape.
+  C07.Proofs_glue C07.Proofs_referral C07.Proofs_contain C07.Proofs_chase C07.Proofs_gluehist C07.Proofs_local C07.Proofs_fold C07.Proofs_zone C07.Proofs_sub C07.Proofs_gen C07.Proofs_gluename C07.Proofs_twosite C07.Proofs_shape.
 Open Scope N_scope.
 
 (* A reply is accepted only when it parses, carries the outstanding query's ID and - when the
@@ -299,3 +299,34 @@ Theorem validReferral_is_model :
   go_validReferral fuel (t_info owner i) (pres auth) (t_question q) = Some (valid_referral i auth q).
 Proof. exact gen_validReferral. Qed.
 Print Assumptions validReferral_is_model.
+
+(* checkGlueRR's NAME TEST.  [go_glue_name_skipped] (Proofs_gluename.v) is the composition of the three inline
+   statements - strings.ToLower(owner), dns.PrevLabel(qname, level), dnsname.CompareSuffix(name, qname[i:]) < level -
+   over the GENERATED go_PrevLabel and go_CompareSuffix (ToLower: ASCII model); their shape is pinned by
+   src_check_glue.  On presentation strings of escape-free names, for every level (0 included), it computes the
+   model's glue_in_level: a record is skipped exactly when its owner is outside the last [level] labels of qname. *)
+Theorem glue_name_test_is_model :
+  forall fuel owner qname level, plain owner -> plain qname ->
+  (length (pres owner) + length (pres qname) < fuel)%nat ->
+  go_glue_name_skipped fuel (pres owner) (pres qname) (Z.of_nat level) = Some (negb (glue_in_level level qname owner)).
+Proof. exact glue_name_test. Qed.
+Print Assumptions glue_name_test_is_model.
+
+(* TWO SITES COMPOSED (transport guard x glue origin).  checkGlueRR takes the origin of its bailiwick test from the
+   question section of the message Conn.Exchange accepted.  Whatever replies arrive (any IDs, rcodes, question
+   sections, referrals, glue): if one is accepted and its glue processed, the result is the one computed with the
+   question that was ASKED as origin - so every name glue is taken for is an NS host of that reply inside the zone
+   cut out of the asked name at the level, with usable addresses. *)
+Theorem glue_origin_is_the_asked_question :
+  forall stream id q replies ipv6 local level i og,
+  exchange_then_glue stream id q replies ipv6 local level = Some (i, og) ->
+  exists f,
+    nth_error replies i = Some f /\ w_id (f_wire f) = id /\
+    let hosts := di_hosts (extract_info (u_ns (f_body f))) in
+    let g := check_glue ipv6 local level (q_name q) hosts (u_extra (f_body f)) in
+    og = Some g /\
+    Forall (addr_ok local) (gr_servers g) /\
+    Forall (name_ok level (q_name q) hosts) (gr_found4 g) /\ Forall (name_ok level (q_name q) hosts) (gr_found6 g) /\
+    Forall (entry_ok local level (q_name q) hosts) (gr_addrs4 g) /\ Forall (entry_ok local level (q_name q) hosts) (gr_addrs6 g).
+Proof. exact exchange_then_glue_origin. Qed.
+Print Assumptions glue_origin_is_the_asked_question.
